@@ -489,3 +489,61 @@ def rule_stable(ctx) -> RuleResult:
     if missing:
         raise AnalysisError(f"R-STABLE: obligated sort sites vanished: {sorted(missing)}")
     return res
+
+
+# ---------------------------------------------------------------------------------------------
+# R-ENGINEFILL (C06, C19): an engine that cannot honour a blueprint's intermediate fill is refused for that blueprint on chunked data.
+# The arg-reduction blueprints combine block extremes with a NaN-propagating operator (combine = ("max", "argmax")) and rely on a block whose
+# members of a group are all NaN handing on the identity (-inf / +inf, the blueprint's intermediate fill).  numbagg's nan-skipping kernels
+# return their own default for such a group (DEFAULT_FILL_VALUE["nanmax"] = nan) and take no fill_value; _postprocess_numbagg only patches
+# groups that do not occur at all.  So as long as that table disagrees with the blueprint's fill, groupby_reduce must refuse
+# engine="numbagg" for arg reductions whenever the DATA may be chunked (is_duck_dask_array(array)), not only for lazy labels.
+def rule_enginefill(ctx) -> RuleResult:
+    res = RuleResult("R-ENGINEFILL", "an engine that cannot honour the intermediate fill of arg reductions is refused for chunked data", min_instances=1)
+    import math
+    nb = ctx.prog.unit("aggregate_numbagg").bindings.get("DEFAULT_FILL_VALUE")
+    if not nb or not isinstance(nb[-1], ast.Dict):
+        raise AnalysisError("aggregate_numbagg.DEFAULT_FILL_VALUE dict literal not found (anchor)")
+    table = {k.value: norm(v) for k, v in zip(nb[-1].keys, nb[-1].values) if isinstance(k, ast.Constant)}
+    premises = []
+    for key, rec in ctx.registry.agg_items():
+        if rec.errors or rec.args.get("reduction_type") != "argreduce":
+            continue
+        chunk, comb, fills = rec.args.get("chunk"), rec.args.get("combine"), rec.args.get("fill_value")
+        if not (isinstance(chunk, tuple) and isinstance(comb, tuple) and isinstance(fills, tuple)):
+            continue
+        k0 = chunk[0]
+        if isinstance(k0, str) and k0 in table and table[k0] in ("np.nan", "nan") and str(fills[0]) in ("NINF", "INF") and comb[0] in ("max", "min"):
+            premises.append((rec.name, k0, comb[0], str(fills[0])))
+    if not premises:
+        res.notes.append("numbagg's defaults agree with the intermediate fills of the arg-reduction blueprints (or no such blueprint): nothing to refuse")
+        res.min_instances = 0
+        return res
+    gr = ctx.prog.func("core.groupby_reduce")
+    arr = gr.params[0]
+    refusal = None
+    for st in walk_own(gr.node):
+        if isinstance(st, ast.If) and any(isinstance(b, ast.Raise) for b in st.body):
+            leaves = st.test.values if isinstance(st.test, ast.BoolOp) and isinstance(st.test.op, ast.And) else [st.test]
+            txt = [norm(l) for l in leaves]
+            if any(t.replace('"', "'") == "engine == 'numbagg'" for t in txt) and any("_is_arg_reduction" in t for t in txt):
+                refusal = (st, leaves)
+    names = ", ".join(p[0] for p in premises)
+    if refusal is None:
+        res.inst(f"premise holds for {names}; refusal of engine='numbagg' for arg reductions: missing", "refusal")
+        res.report("core.groupby_reduce|numbagg-argreduce-not-refused", gr.where(), gr.qualname,
+                   f"numbagg returns {table[premises[0][1]]} for a block in which a group has only NaN members, the {names} blueprints combine with the NaN-propagating "
+                   f"'{premises[0][2]}' and expect {premises[0][3]}: groupby_reduce no longer refuses engine='numbagg' for arg reductions")
+        return res
+    st, leaves = refusal
+    rest = [l for l in leaves if "numbagg" not in norm(l) and "_is_arg_reduction" not in norm(l)]
+    covers_data = any(isinstance(c, ast.Call) and norm(c.func) in ("is_duck_dask_array", "is_chunked_array", "is_duck_array") and c.args and norm(c.args[0]) == arr
+                      for l in rest for c in ast.walk(l)) or not rest
+    res.inst(f"premise holds for {names} (numbagg {premises[0][1]} default {table[premises[0][1]]} vs fill {premises[0][3]}); refusal '{norm(st.test)[:70]}' covers a chunked "
+             f"`{arr}`: {covers_data}", "refusal")
+    if not covers_data:
+        res.report("core.groupby_reduce|numbagg-argreduce-refusal-misses-chunked-data", gr.where(st), gr.qualname,
+                   f"the refusal '{norm(st.test)[:80]}' does not fire for a chunked `{arr}` with in-memory labels: numbagg hands on {table[premises[0][1]]} for a block whose "
+                   f"members of a group are all NaN, the combine ('{premises[0][2]}', NaN-propagating) expects {premises[0][3]}, and {names} return the position of the "
+                   "first entry of the tree node instead of the extreme's")
+    return res
